@@ -23,6 +23,7 @@ Inductive stop :=
 | SHolders (gap : Z)     (* during the preceding Flush: min over its hook points of (#queued memtables + #registered segments) minus the value at its start *)
 | SCompactFiles (lost : Z)  (* during the preceding compaction: segment files that existed at its start and were gone before the merged segment was registered *)
 | SInFlight (compact : bool)
+| SFlushFail (err : Z)   (* a Flush during which the creation of the next segment's first file is made to fail *)
 | STrainT (vs : list vec) (err : Z).   (* the freshly constructed vector template of this session is trained before the store is opened *)
 
 Definition pfst4 : P (Z * Z * Z * Z) := a <- pz ;; b <- pz ;; c <- pz ;; d <- pz ;; ret (a, b, c, d).
@@ -44,6 +45,7 @@ Definition pstop : P stop :=
   else if t =? 13 then (g <- pz ;; ret (SCompactFiles g))
   else if t =? 11 then (c <- pbool ;; ret (SInFlight c))
   else if t =? 14 then (vs <- pvecs ;; e <- pz ;; ret (STrainT vs e))
+  else if t =? 15 then (e <- pz ;; ret (SFlushFail e))
   else (fun _ => None).
 
 Definition fstate_of (z : Z) : fstate :=
@@ -226,6 +228,10 @@ Definition ststep (h : sth) (o : stop) : sth + list Z :=
              sh_known := remember_segs h s'; sh_cfg := sh_cfg h; sh_session := sh_session h;
              sh_spec_session := sh_spec_session h; sh_crashed := sh_crashed h; sh_corrupt := sh_corrupt h;
              sh_i := sh_i h + 1; sh_weak := sh_weak h; sh_found := sh_found h |}
+  | SFlushFail err =>
+      (* the failing Flush reports its failure; nothing becomes durable by it *)
+      let '(s', e) := st_flush_fail s in
+      if Bool.eqb (e =? 0) (err =? 0) then inl (upd_model h s') else errmis e err
   | STrainT vs err =>
       let '(hy', e) := hy_train (hy_of (s_T s) []) vs in
       if e =? err then
